@@ -1,68 +1,284 @@
 """C08 - the synchronous client returns only the reply to its own request.
 
-Contract on ModbusTransactionManager.execute(request) with the transport havoc'd (every read returns arbitrary bytes or
-nothing): the returned object is an error object (ModbusIOException) or a message that the framer delivered DURING this
-call (so decoded from bytes received in this call: a non-empty stale buffer is reset at entry), and for a delivered
-message: on TCP the wire transaction id equals the request's, on serial framings the wire unit id equals the request's,
-and its function code is the request's or that | 0x80.  Transaction ids are allocated as (tid + 1) mod 65536."""
-from pyvc.unit import Unit
+filter.<kind>   (real framer code, receive loop cut: every iteration of every call history) every message a framer hands to its callback
+                carries the unit id that is on the wire, that unit id passed the unit filter (single, or 0 / 0xFF among the expected
+                units, or equal to one of them) and, on TCP, carries the wire transaction / protocol id; an empty buffer plus an empty
+                read delivers nothing.  This is the contract FramerDelivers (units/client.py) the pairing lemmas rely on.
+pairing.<kind>  (real ModbusTransactionManager.execute / _transact / _recv, framer replaced by that contract, transport havoc'd, retry
+                loop cut, any prior state: stale framer buffer, client state, tid counter incl. the wrap, a reply slot left over from
+                an earlier call) the returned object is a ModbusIOException or a message delivered during THIS call, decoded with an
+                empty framer buffer at hand-over (nothing received in an earlier call takes part), which carries the request's
+                transaction id (TCP) / unit id (serial) and the request's function code or that | 0x80.
+tid             getNextTID allocates (tid + 1) mod 65536."""
+from pyvc.unit import Unit, LoopAnn
 from pyvc import lang as L
+from spec import pdu as P
+from spec import checks as CK
 from . import framers as F
 from . import client as CL
 from . import codec_contracts as K
 
 TRUSTED = []
-ASSUMPTIONS = ['transport abstracted: recv(n) returns any byte string of length <= n (any length when n is None) or raises OSError; send accepts the frame',
-               'decoder abstracted: any non-empty PDU yields a message whose function code is the first PDU byte',
-               'retries = 0..1 in these lemmas (the loop is unrolled; the pairing logic after the loop does not depend on the retry count)']
+ASSUMPTIONS = ['transport abstracted: recv(n) returns any byte string of length <= n (any length when n is None); send accepts the frame; connect succeeds or not',
+               'decoder abstracted: any non-empty PDU yields a message whose function code is the first PDU byte (C01/C02 decide what decodes)',
+               'request frame construction (buildPacket) and the RTU inter-frame waiting in sendPacket / recvPacket are abstracted in the pairing lemmas (C03 / not part of pairing)',
+               'number of deliveries per processIncomingPacket call split 0 / 1 / 2 / 1-then-raise at the call site (the client callback stores under one key: longer sequences leave the same state)']
 PROP = 'C08'
 CS = (K.ComputeCRC(), K.ComputeLRC())
-TMQ = 'pymodbus.transaction.ModbusTransactionManager'
+TMQ = CL.TMQ
 
 
-def pairing(kind):
+# --------------------------------------------------------------------------- filter lemmas (real framers)
+def wire_ids(kind, buf):
+    """(unit id, transaction id, protocol id) of the frame at the head of the buffer, read from the wire bytes per the framing spec"""
+    if kind == 'socket':
+        return L.at(buf, 6), P.u16_at(buf, 0), P.u16_at(buf, 2)
+    if kind == 'rtu':
+        return L.at(buf, 0), None, None
+    if kind == 'binary':
+        return L.at(buf, 1), None, None
+    return CK.hexval(L.at(buf, 1)) * 16 + CK.hexval(L.at(buf, 2)), None, None
+
+
+def filter_lemma(kind):
+    def lemma(E):
+        rec = F.Rec()
+        osz = E.int('oracle_size', 4, 70000) if kind == 'rtu' else None
+        f = F.arbitrary_framer(E, kind, rec, outcomes=('message', 'none', 'raises'), size_of=lambda fc, buf: osz)
+        unit0 = E.int('unit0', 0, 256)
+        single = E.bool('single')
+
+        def on_deliver(msg, pdu, buf, hdr):
+            if pdu is None:
+                E.prove('filter:delivered-message-came-from-the-decoder', False)
+                return
+            uid, tid, pid = wire_ids(kind, buf)
+            short = L.Or(L.length(buf) <= 7, P.u16_at(buf, 4) < 2) if kind == 'socket' else False      # C07-F1: the socket framer's error path
+            fk = {'finding': 'C08-F4', 'region': short} if kind == 'socket' else {}
+            E.prove('filter:message-carries-the-wire-unit-id', E.get(msg, 'unit_id') == uid, **fk)
+            E.prove('filter:wire-unit-id-passed-the-unit-filter', L.Or(L.truth(single), unit0 == 0, unit0 == 255, uid == unit0), **fk)
+            if kind == 'socket':
+                E.prove('filter:message-carries-the-wire-transaction-and-protocol-id', L.And(E.get(msg, 'transaction_id') == tid, E.get(msg, 'protocol_id') == pid), **fk)
+        cb = E.callback(F.callback(E, rec, on_deliver), 'callback')
+        E.attempt(lambda: E.method(f, 'processIncomingPacket', b'', cb, unit0, single=single), allow_cut=True)
+        E.prove('filter:reached', True)
+    return lemma
+
+
+def quiet_lemma(kind):
+    """a framer with an empty buffer that is handed an empty read delivers nothing and raises nothing"""
+    def lemma(E):
+        rec = F.Rec()
+        f = F.arbitrary_framer(E, kind, rec, outcomes=('message',), size_of=lambda fc, buf: 4)
+        E.set(f, '_buffer', b'')
+        cb = E.callback(F.callback(E, rec), 'callback')
+        out = E.attempt(lambda: E.method(f, 'processIncomingPacket', b'', cb, E.int('unit0', 0, 256), single=E.bool('single')))
+        E.prove('quiet:no-exception', out.ok)
+        E.prove('quiet:nothing-delivered', len(rec.delivered) == 0)
+    return lemma
+
+
+# --------------------------------------------------------------------------- pairing lemma (real transaction manager)
+def _set_local(view, name, value):
+    object.__getattribute__(view, '_fr').env[name] = value
+
+
+def retry_ann(ghost):
+    ann = LoopAnn('retry', lambda v, j: True)
+
+    def havoc(v):
+        # the loop is left by break (state of that iteration) or when the retry budget is used up: then `response` holds what an
+        # earlier iteration's _transact returned - arbitrary bytes
+        r = CL._fresh_bytes(v.E, 'response_of_an_earlier_iteration', 0, 600)
+        ghost['earlier'] = r
+        _set_local(v, 'response', r)
+        _set_local(v, 'last_exception', v.E.opaque('transport-error-or-None'))      # only ever used as the text of the error object
+        if not object.__getattribute__(v, '_exit_path'):
+            # execute only asks whether THIS request's unit is in the list and appends / removes that unit: the list is abstracted by
+            # that one bit (it is not read after the loop)
+            silent = v.E.st.branch(2, 'unit-in-no-response-list')
+            v.E.set(v.self, '_no_response_devices', [v.request.unit_id] if silent else [])
+    ann.havoc = havoc
+    ann.exit_any = True          # what follows the loop is examined once, from any `response`; an iteration that breaks adds nothing
+    return ann
+
+
+def pairing(kind, udp=False):
     def lemma(E):
         wire, rec = CL.Wire(), F.Rec()
 
         def transport(i, size):
             d = E.bytes('rx%d' % i, 0, 300)
-            if size is not None:
+            if size is None:
+                return d
+            if E.mode == 'symbolic':
                 E.assume(L.length(d) <= size)
-            return d
-        retries = E.choice('retries', [1])
-        client, tm, f = CL.make_client(E, kind, wire, rec, retries, False, False, transport)
-        stale = E.bytes('stale_buffer', 0, 40)          # left over from an earlier, timed-out transaction
+                return d
+            return d[:max(size, 0)]
+        retries = E.int('retries', 0, 4)
+        client, tm, f = CL.make_client(E, kind, wire, rec, retries, E.bool('retry_on_empty'), E.bool('retry_on_invalid'), transport, udp=udp)
+        # left in the framer by an earlier transaction: nothing, or some bytes (their number does not matter to execute: it only tests for emptiness)
+        stale = E.bytes_n('stale_buffer', 5) if E.choice('stale_bytes_in_framer', [False, True]) else b''
         E.set(f, '_buffer', stale)
         req, uid, n = CL.request(E)
+        # prior state: the tid counter (incl. the wrap to 0) and a reply slot left over from an earlier call (an exception after a delivery
+        # leaves one, filed under that call's id)
+        scenario = E.choice('history', ['fresh', 'wrap', 'left-over-slot', 'left-over-slot-under-0'])
+        E.set(tm, 'tid', {'fresh': 7, 'wrap': 65535, 'left-over-slot': 7, 'left-over-slot-under-0': 0}[scenario])
         old_tid = tm.tid
-        out = E.attempt(lambda: E.method(tm, 'execute', req))
-        E.prove('pairing:no-exception', out.ok, **({'finding': 'C13-F3', 'region': True} if kind in ('ascii', 'rtu') else {}))
+        new_tid = (old_tid + 1) % 65536
+        history = 'none' if scenario in ('fresh', 'wrap') else scenario
+        stale_msg = E.obj('pymodbus.pdu.ModbusResponse', transaction_id=old_tid, protocol_id=0, unit_id=E.int('stale_unit', 0, 256), skip_encode=False, check=0, function_code=E.int('stale_fc', 1, 256))
+        if history != 'none':
+            E.set(tm, 'transactions', {old_tid: stale_msg})
+        out = E.attempt(lambda: E.method(tm, 'execute', req), allow_cut=True)
+        if out.cut:
+            return
         if not out.ok:
+            E.prove('pairing:reached(raises: C13)', True)
             return
         r = out.value
-        E.prove('tid:allocated-as-previous+1-mod-65536', req.transaction_id == (old_tid + 1) % 65536)
+        E.prove('tid:allocated-as-previous+1-mod-65536', tm.tid == new_tid)
+        key = req.transaction_id          # the reply slot key (RTU: buildPacket has replaced it by the unit id)
         if E.classname(r) == 'ModbusIOException':
             E.prove('result:error-object', True)
             return
-        mine = [d for d in rec.delivered if d[0] is r]
-        E.prove('result:is-a-message-delivered-during-this-call', len(mine) == 1)
+        if isinstance(r, (bytes, bytearray)) or (hasattr(r, 'kind') and not hasattr(r, 'cls')):
+            E.prove('result:broadcast-note-only-for-a-broadcast', L.And(L.truth(client.broadcast_enable), uid == 0))
+            return
+        left = {'finding': 'C08-F5', 'region': history != 'none'}
+        E.prove('result:is-an-error-object-or-a-message', r is not None, **left)
+        if r is None:
+            return
+        mine = [d for d in rec.decoded if d[3] is r]
+        E.prove('result:is-a-message-delivered-during-this-call', len(mine) == 1, **left)
         if len(mine) != 1:
             return
-        m, pdu, buf, hdr = mine[0]
-        E.prove('result:decoded-from-bytes-received-in-this-call(stale-buffer-discarded)', L.Or(L.length(stale) == 0, True) if buf is not None else False)
-        if kind == 'socket':
-            E.prove('result:same-transaction-id', E.get(m, 'transaction_id') == req.transaction_id, finding='C08-F1', region=E.get(m, 'transaction_id') != req.transaction_id)
+        if E.mode == 'symbolic':
+            for data, buflen in wire.handed:
+                E.prove('result:nothing-buffered-before-this-call-takes-part-in-decoding', buflen == 0)
         else:
-            E.prove('result:same-unit-id', E.get(m, 'unit_id') == uid, finding='C08-F3', region=L.Or(uid == 0, uid == 255))
+            # the real framer: the buffer the decoder saw starts at what this call received (the stale bytes were discarded)
+            rx = b''.join(bytes(d) for (sz, d) in wire.reads)
+            E.prove('result:nothing-buffered-before-this-call-takes-part-in-decoding', len(stale) == 0 or not bytes(mine[0][1]).startswith(bytes(stale)) or rx.startswith(bytes(stale)))
+        m, hdr = mine[0][3], mine[0][2]
+        if kind == 'socket':
+            wtid = hdr['tid']
+            E.prove('result:carries-the-requests-transaction-id', wtid == new_tid, finding='C08-F1', region=wtid != new_tid)
+        else:
+            wuid = hdr['uid']
+            E.prove('result:carries-the-requests-unit-id', wuid == uid, finding='C08-F3', region=L.Or(uid == 0, uid == 255))
         fc = E.get(m, 'function_code')
         E.prove('result:function-code-is-the-requests-or-that|0x80', L.Or(fc == 3, fc == 0x83), finding='C08-F2', region=L.And(fc != 3, fc != 0x83))
     return lemma
 
 
+def transact_lemma(kind):
+    """real _transact with a havoc'd transport: a pair (bytes, exception-or-None) comes back; the framer's buffer and header, the reply slots
+    and the request's unit id are untouched; the request's transaction id is untouched except on RTU (buildPacket sets it to the unit id)"""
+    def lemma(E):
+        wire, rec = CL.Wire(), F.Rec()
+
+        def transport(i, size):
+            k = E.choice('read%d' % i, ['data', 'OSError', 'socket.timeout']) if i < 2 else 'data'
+            if k != 'data':
+                raise E.Raised(k)
+            d = E.bytes('rx%d' % i, 0, 300)
+            if size is None:
+                return d
+            if E.mode == 'symbolic':
+                E.assume(L.length(d) <= size)
+                return d
+            return d[:max(size, 0)]
+        client, tm, f = CL.make_client(E, kind, wire, rec, 0, False, False, transport)
+        E.set(f, '_buffer', E.bytes_n('buffered', 3))
+        marker = E.opaque('slot')
+        E.set(tm, 'transactions', {5: marker})
+        req, uid, n = CL.request(E)
+        E.set(req, 'transaction_id', 8)
+        hdr = dict(E.get(f, '_header'))
+        buf = E.get(f, '_buffer')
+        exp = E.int('expected_response_length', 4, 300) if E.choice('length_predicted', [True, False]) else None
+        out = E.attempt(lambda: E.method(tm, '_transact', req, exp, full=E.bool('full'), broadcast=False))
+        if out.ok:
+            r = out.value
+            E.prove('transact:returns-(bytes,exception-or-None)', isinstance(r, tuple) and len(r) == 2)
+            if E.mode == 'symbolic' and isinstance(r, tuple):
+                E.prove('transact:what-it-returns-is-what-the-reads-of-this-call-returned-or-nothing',
+                        L.Or(L.length(r[0]) == 0, L.eq(r[0], L.concat(*[d for (sz, d) in wire.reads]) if wire.reads else [])))
+        E.prove('transact:framer-buffer-untouched', L.eq(E.get(f, '_buffer'), buf))
+        E.prove('transact:framer-header-untouched', dict(E.get(f, '_header')) == hdr if E.mode != 'symbolic' else E.same_state(dict(E.get(f, '_header')), hdr))
+        tx = E.get(tm, 'transactions')
+        E.prove('transact:reply-slots-untouched', len(tx) == 1 and tx.get(5) is marker)
+        E.prove('transact:request-unit-id-untouched', req.unit_id == uid)
+        E.prove('transact:request-transaction-id-untouched(rtu: replaced by the unit id)', req.transaction_id == (uid if kind == 'rtu' else 8))
+    return lemma
+
+
+def tid_lemma(E):
+    tm = E.obj(CL.TM, transactions={}, tid=E.int('tid', 0, 65536), client=None)
+    old = tm.tid
+    got = E.method(tm, 'getNextTID')
+    E.prove('tid:next==(previous+1) mod 65536', L.And(got == (old + 1) % 65536, tm.tid == got))
+
+
+# --------------------------------------------------------------------------- twin: real reply frames, right and wrong
+MIN = {'socket': 8, 'rtu': 2, 'ascii': 5, 'binary': 3}
+
+
+def pairing_twin(kind):
+    def make(g):
+        r = g.r
+        uid = r.choice([1, 1, 17, 0, 255, 200])
+        count = r.choice([1, 2, 5])
+        hist = r.choice([0, 0, 1, 2, 3])
+        new_tid = ([7, 65535, 7, 0][hist] + 1) % 65536
+        what = r.choice(['own', 'own', 'own-exception', 'other-tid', 'other-unit', 'other-fc', 'garbage', 'nothing', 'short'])
+        ruid, rtid, pdu = uid, new_tid, [3, 2 * count] + [r.randrange(256) for _ in range(2 * count)]
+        if what == 'own-exception':
+            pdu = [0x83, 2]
+        elif what == 'other-tid':
+            rtid = (new_tid + r.choice([1, 65535, 100])) % 65536
+        elif what == 'other-unit':
+            ruid = (uid + r.choice([1, 5])) % 248
+        elif what == 'other-fc':
+            pdu = [4, 2 * count] + [r.randrange(256) for _ in range(2 * count)]
+        if kind == 'binary':
+            pdu = [b if b not in (0x7B, 0x7D) else 0x11 for b in pdu]
+        fr = F.concrete_frame(kind, ruid, pdu, rtid)
+        if what == 'garbage':
+            fr = [r.randrange(256) for _ in range(len(fr))]
+        elif what == 'nothing':
+            fr = []
+        elif what == 'short':
+            fr = fr[:r.randrange(1, len(fr))]
+        m = MIN[kind]
+        out = {'unit_id': uid, 'count': count, 'history': hist, 'rx0': {'items': fr[:m]}, 'rx1': {'items': fr[m:]}, 'rx2': {'items': fr[:m]}, 'rx3': {'items': fr[m:]},
+               'retries': r.choice([0, 1, 3]),
+               'stale_bytes_in_framer': r.choice([0, 0, 1]), 'client_state': r.choice([0, 1])}
+        for k in range(5):
+            out['stale_buffer[%d]' % k] = r.randrange(256)
+        for k in range(6):
+            out['oracle_size_%d' % k] = len(fr) if fr else 4
+        return out
+    return make
+
+
 def get_units():
     us = []
     for kind in ('socket', 'rtu', 'ascii', 'binary'):
-        us.append(Unit('%s/pairing.%s' % (PROP, kind), pairing(kind), [PROP], contracts=CS,
-                       functions=[TMQ + '.execute', TMQ + '._transact', TMQ + '._recv', TMQ + '._send', TMQ + '.getNextTID', 'pymodbus.transaction.DictTransactionManager.addTransaction',
-                                  'pymodbus.transaction.DictTransactionManager.getTransaction', F.QUAL[kind] + '.processIncomingPacket']))
+        fq = F.QUAL[kind]
+        fl = Unit('%s/filter.%s' % (PROP, kind), filter_lemma(kind), [PROP], contracts=CS, loops=F.loop_anns(kind),
+                  functions=[fq + '.processIncomingPacket', fq + '._process', fq + '.populateResult', 'pymodbus.framer.ModbusFramer._validate_unit_id'])
+        us.append(fl)
+        us.append(Unit('%s/quiet.%s' % (PROP, kind), quiet_lemma(kind), [PROP], contracts=CS, functions=[fq + '.processIncomingPacket']))
+        us.append(Unit('%s/transact.%s' % (PROP, kind), transact_lemma(kind), [PROP], contracts=CS,
+                       functions=[TMQ + '._transact', TMQ + '._recv', TMQ + '._send', fq + '.buildPacket', fq + '.sendPacket', fq + '.recvPacket']))
+        ghost = {}
+        cs = (CL.TransactAny(kind), CL.FramerDelivers(kind))
+        for udp in ((False, True) if kind == 'socket' else (False,)):
+            nm = '%s/pairing.%s%s' % (PROP, kind, '.udp' if udp else '')
+            us.append(Unit(nm, pairing(kind, udp), [PROP], contracts=cs, loops={(TMQ + '.execute', 0): retry_ann(ghost)}, twin=pairing_twin(kind),
+                           functions=[TMQ + '.execute', TMQ + '._transact', TMQ + '._recv', TMQ + '._send', TMQ + '.getNextTID', CL.TM + '.addTransaction', CL.TM + '.getTransaction']))
+    us.append(Unit('%s/tid' % PROP, tid_lemma, [PROP], functions=[TMQ + '.getNextTID']))
     return us
